@@ -350,6 +350,11 @@ func run(c *core.Ctx) {
 					// re-use the serial (hence the certificate object name) of the previous signing certificate, allowed by --overwrite
 					skc.SigningKeySerial, skc.SigningKeyCommonName = new(big.Int).Set(lastSerial), lastCN
 					ropts.Overwrite = true
+					if !forceSame && r.IntN(3) == 0 {
+						// ... or attempted with --keep_going instead: the rotation may refuse, but if it reports success the
+						// authority must still produce verifiable endorsements
+						ropts.Overwrite, ropts.KeepGoing = false, true
+					}
 				}
 				var err error
 				if viaCLI {
@@ -360,6 +365,9 @@ func run(c *core.Ctx) {
 					if ropts.Overwrite {
 						args = append(args, "--overwrite")
 					}
+					if ropts.KeepGoing {
+						args = append(args, "--keep_going")
+					}
 					err = a.CLI(args...)
 				} else {
 					_, err = a.Rotate(&doubles.FCtl{}, ropts, skc)
@@ -368,7 +376,7 @@ func run(c *core.Ctx) {
 					lastSerial, _ = new(big.Int).SetString(st.PrimaryCert.Subject.SerialNumber, 10)
 					lastCN = st.PrimaryCert.Subject.CommonName
 				}
-				cmds = append(cmds, fmt.Sprintf("rotate(now=%s serial=%v overwrite=%v) -> %v", now.Format("2006-01-02"), skc.SigningKeySerial, ropts.Overwrite, err))
+				cmds = append(cmds, fmt.Sprintf("rotate(now=%s serial=%v overwrite=%v keep_going=%v) -> %v", now.Format("2006-01-02"), skc.SigningKeySerial, ropts.Overwrite, ropts.KeepGoing, err))
 				if err != nil {
 					// a refusal to replace an existing certificate object (a default serial that collides with an earlier
 					// override) is legitimate; C03 is about histories of successful rotations. The caller drops the authority value.
